@@ -180,6 +180,9 @@ def rule_E8(ctx):
     r = RuleResult('E8', 'variants of one switched slot accept the same argument kinds')
     n = 0
     for (c, s), modes in sorted(m.slots.items()):
+        if 'msb0' not in modes or 'lsb0' not in modes:
+            n += 1
+            continue      # G1 reports the incomplete table
         fa = m.classes[modes['msb0'][0]].methods.get(modes['msb0'][1])
         fb = m.classes[modes['lsb0'][0]].methods.get(modes['lsb0'][1])
         if fa is None or fb is None:
